@@ -7,8 +7,9 @@ its provenance; the model prints the same provenance (`<leaf id>:<flat raw offse
 Modelled: array / memmap / file-read leaves, reverse + transpose, ReorientationSegment, subsets (squeeze or not, formatted
 basis; raw basis over a parent with the identity format function), band and block aggregates (holes, block definitions with
 step -1), ComplexFormatFunction IQ / QI / MP / PM with the band axis collapsed or kept (reads and writes),
-SingleLUTFormatFunction with a 1-d table; everything else raises `Unsupported` in `encode` and is counted in
-`stats['unsupported']` (raw-basis subsets over complex / LUT parents and 2-d tables: listed defects of sarpy, see NOTES_SEG2).
+SingleLUTFormatFunction with a 1-d or 2-d table; everything else raises `Unsupported` in `encode` and is counted in
+`stats['unsupported']` (raw-basis subsets over subsets / complex / LUT parents: numpy oracle only).  Block definitions with
+step -1 and 2-d tables are modelled as the REPAIRED code behaves (notes/NOTES_SEGFIX.md, patches F1 and F5).
 
 Trees with a magnitude / phase or LUT format are compared by VALUE: the model's provenance expression is evaluated on the
 harness's own copy of the leaf arrays (magnitude * exp(i * 2 pi phase / 2^bits), table[x]) and compared with what sarpy
@@ -45,7 +46,7 @@ REQUIRED_SEG = [
     'mirror_point', 'overlap_point', 'normalSub_iff', 'selIdx_inR',
     # SEG2: raw-basis subsets, reversed block definitions, kept band dimension, MP / PM, lookup tables, the supported set
     'read_refines_total', 'accepts_of_total', 'subsetR_full_raw', 'fmtSub_orient', 'fmtSub_normal', 'squeeze_congr',
-    'hitsR_false', 'hitsR_of_inBox', 'block_noneR', 'kept_refines', 'rawSubK_eq', 'rawSubK_reversed_not_normal', 'dblAt_normal',
+    'flipSlice_spec', 'overlapsR_spec', 'block_axesR', 'block_someR', 'block_noneR', 'kept_refines', 'rawSubK_eq', 'rawSubK_reversed_not_normal', 'dblAt_normal',
     'lutMap_refines', 'lutCols_refines',
 ]
 SEG_MODULE = 'SarpyModel.Props.C01Seg'
@@ -57,6 +58,8 @@ REQUIRED_WSEG = [
     # SEG2: routing of every part of a written pixel, complex format functions included (Props/C07SegG.lean)
     'write_routesG', 'routesG_plain', 'stores_comb', 'stores_leaf', 'routes_transfer', 'leaf_routesG', 'orient_routesG',
     'subset_routesG', 'cplx_routesG', 'kept_routesG', 'bands_routesG', 'block_routesG', 'fullOnto_charP', 'orient_inj', 'subset_inj',
+    # SEGFIX: block definitions with step -1 are served (repair F1): routing through the mirrored block-relative slice
+    'block_routesRQ', 'overlapsWR_eq', 'block_axes_stepR', 'block_dataR',
 ]
 WSEG_MODULE = 'SarpyModel.Props.C07SegG'
 WSEG_NS = 'Sarpy.Props.C07Seg'
@@ -106,9 +109,8 @@ def _orient_tokens(spec, ndim):
         return ['C' if f['collapsed'] else 'CK', f['order'], _nats(sorted(set(rev))), _nats(perm), str(f['band_dim'])]
     if f['kind'] == 'lut':
         if isinstance(f['table'][0], list):
-            # the model has the node (`lut2`), but sarpy hands the raw subscript to SingleLUTFormatFunction.__call__ where the
-            # formatted one is needed (finding lut-2d-raw-subscript): not tied until that is repaired
-            raise Unsupported('2-d lookup table (listed defect)')
+            # tied since the repair F5_lut_2d_raw_subscript (DataSegment.read hands the formatted column slice on)
+            return ['U2', str(len(f['table'][0])), _nats(sorted(set(rev))), _nats(perm)]
         return ['U1', _nats(sorted(set(rev))), _nats(perm)]
     raise Unsupported('format function ' + f['kind'])
 
@@ -193,7 +195,7 @@ def _enc(spec, counter):
             return ['S', '1' if spec.get('squeeze', True) else '0', sub_token(spec['def'])] + inner
         ps = spec['parent']
         if ps['kind'] == 'subset' or ps.get('fmt'):
-            raise Unsupported('raw-basis subset over a subset or over a complex / LUT format function (listed defects)')
+            raise Unsupported('raw-basis subset over a subset or over a complex / LUT format function (outside the model)')
         raw, nd = _enc_raw(ps, counter)
         o = _orient_tokens(ps, nd)
         return ['SR', '1' if spec.get('squeeze', True) else '0', sub_token(spec['def']), o[1], o[2]] + raw
